@@ -313,7 +313,7 @@ COMMON_ASSUME = ["64-bit little-endian target (usize = u64)", "std slice/str pri
 register("C01", replay_with_oracle=True, lean=["Khttp.Props.C01"], run=run_parse("C01", oracle_c01), rule=RULE, assumptions=COMMON_ASSUME,
          explanation="Theorems: Request.parse / Response.parse of the model never yield panic/ub (all loops terminate within their fuel, every index, slice, "
                      "read_unaligned, get_unchecked and from_utf8_unchecked precondition holds), returned fields are ASCII infixes of the input, off <= len, "
-                     "every RequestUri accessor is panic-free. SWAR block loop + tail proved equal to takeWhile via two bv_decide lane lemmas. "
+                     "every RequestUri accessor is panic-free. SWAR block loop + tail proved equal to takeWhile via two kernel-checked lane lemmas (Lemmas/SwarKernel.lean: per-lane bitwise ops, no-borrow subtraction, 8-bit truth tables by decide). "
                      "Oracle on the real code: no panic (catch_unwind), pointer containment of every returned slice, ASCII, accessors.")
 register("C02", replay_with_oracle=True, lean=["Khttp.Props.C02"], run=run_parse("C02", None), rule=RULE + " Plus grammar-derived heads with the expected decoding computed by the generator.",
          assumptions=COMMON_ASSUME + ["absolute-form restricted to scheme://authority path-abempty [?query]; pct-encoding checked as '%' anywhere"],
